@@ -57,6 +57,8 @@ type siteFile struct {
 	Packages       []string `json:"packages"`
 	SyncPkgs       []string `json:"sync_pkgs"`
 	RaceExemptPkgs []string `json:"race_exempt_pkgs"`
+	Coarse         bool     `json:"coarse"`
+	CoarseReasons  []string `json:"coarse_reasons"`
 	RaceVars       int      `json:"race_tracked_variables"`
 	TouchSites     int      `json:"access_sites"`
 	WriteYields    int      `json:"write_yield_sites"`
@@ -130,7 +132,27 @@ func (d *driver) refsFor(ss *session, sc *proto.Scenario) ([][]*proto.OpResult, 
 	return refs, nil
 }
 
+// coarsen adapts a scenario to a tree whose operations cannot be interleaved
+// cooperatively (library code starts goroutines): every operation is one
+// atomic step, no scheduling faults, deterministic map orders only.
+func (d *driver) coarsen(sc *proto.Scenario) *proto.Scenario {
+	if !d.sites.Coarse {
+		return sc
+	}
+	sc.Sched.MeanQuantum, sc.Sched.SyncPreempt, sc.Sched.WritePreempt, sc.Sched.StarveTask = 0, 0, 0, 0
+	sc.Sched.Dist = ""
+	if sc.Perm.Mode == simrt.PermRandom {
+		sc.Perm.Mode = simrt.PermReverse
+	}
+	sc.Monitor = 0
+	return sc
+}
+
 func (d *driver) generate(i int) *proto.Scenario {
+	return d.coarsen(d.generate1(i))
+}
+
+func (d *driver) generate1(i int) *proto.Scenario {
 	seed := simrt.Mix(d.seed, uint64(i))
 	if np := len(d.pairProgs) * len(d.pairProgs); i < np {
 		// T1, exhaustive: program A then program B on one reused default backend
@@ -517,6 +539,9 @@ func (d *driver) check(n int) int {
 	start := time.Now()
 	fmt.Printf("VERIF_SEED=%d property=%s tier=%s scenarios=%d corpus=%d (lowerable %d, with overrides %d) map_sites=%d yield_sites=%d\n",
 		d.seed, d.prop, d.tier, n, len(d.corpus.progs), len(d.corpus.lowerable), len(d.corpus.withOv), d.sites.MapSites, d.sites.YieldSites)
+	if d.sites.Coarse {
+		fmt.Printf("COARSE MODE: library code uses goroutines/channels (%s ...): operations are atomic scheduler steps; map-order, history, aliasing and package-state checks still apply\n", firstLines(strings.Join(d.sites.CoarseReasons, "; "), 1))
+	}
 	if len(d.pairProgs) > 0 || len(d.siteJobs) > 0 {
 		fmt.Printf("enumerated strata: T1 %d ordered reuse pairs over %d programs; T2 %d (program, operation, reached map site) triples\n", len(d.pairProgs)*len(d.pairProgs), len(d.pairProgs), len(d.siteJobs))
 	}
